@@ -206,10 +206,10 @@ def run_pair(a, b, A, B, c, comp, why):
             continue
         vcs.append(vc)
         lt, le, eq, ne, ge, gt = ops
-        if (lt is True) + (eq is True) + (gt is True) != 1 or not all(isinstance(o, bool) for o in ops):
+        if bool(lt) + bool(eq) + bool(gt) != 1:
             bad.append(("order/trichotomy", "exactly one of <, ==, > for (%r, %r)" % (x, y),
                         "< %r, == %r, > %r" % (lt, eq, gt)))
-        elif le != (lt or eq) or ge != (gt or eq) or ne != (not eq):
+        elif bool(le) != bool(lt or eq) or bool(ge) != bool(gt or eq) or bool(ne) != (not eq):
             bad.append(("order/operators-inconsistent", "<= is (< or ==), >= is (> or ==), != is not == for (%r, %r)" % (x, y),
                         "<,<=,==,!=,>=,> = %r" % (ops,)))
         if vc != e or ops != OPS_FOR[e]:
@@ -219,7 +219,7 @@ def run_pair(a, b, A, B, c, comp, why):
         if (lt, eq, gt) != (vc == -1, vc == 0, vc == 1):
             bad.append(("order/version_compare-disagrees-with-operators", "version_compare(%r, %r) is -1/0/1 as <, ==, > say" % (x, y),
                         "version_compare %r but <, ==, > = %r" % (vc, (lt, eq, gt))))
-        if eq is True and e == 0:
+        if eq and e == 0:
             eq_seen = True
         if x == y:
             break
@@ -279,6 +279,7 @@ def _objs(sp, which, strings, part=None):
 
 
 def unit_pairs(part, sp, i):
+    from debian.debian_support import version_compare
     strings, keys = sp["strings"], sp["keys"]
     objs = _objs(sp, "objs", strings)
     a, A, ka = strings[i], objs[i], keys[i]
@@ -290,6 +291,8 @@ def unit_pairs(part, sp, i):
                        "Version(%r) is constructed" % a, "%s: %s" % (type(A).__name__, A))
         return part
     explain = dpkgver.explain
+    classes = {}
+    n_ordered = 0
     for j in range(i, len(strings)):
         b, B, kb = strings[j], objs[j], keys[j]
         if isinstance(B, Exception):
@@ -299,20 +302,34 @@ def unit_pairs(part, sp, i):
             raise AssertionError("dpkgver: compare(%r, %r) = %d but the key order differs" % (a, b, c))
         if j == i:
             B = construct(a)              # a second object for the reflexive pair
-        bad = run_pair(a, b, A, B, c, comp, why)
-        n = 1 if j == i else 2
-        part.transitions += n
-        part.traces += n
-        part.evaluations += n
-        part.outcomes["%s/%s/%s" % (WORD[c], comp, why)] += 1
+        # fast path: everything as predicted; anything else is diagnosed by run_pair (shared with replay)
+        try:
+            ok = (version_compare(a, b) == c and (A < B, A <= B, A == B, A != B, A >= B, A > B) == OPS_FOR[c] and
+                  version_compare(b, a) == -c and (B < A, B <= A, B == A, B != A, B >= A, B > A) == OPS_FOR[-c] and
+                  (c != 0 or hash(A) == hash(B)))
+        except Exception:
+            ok = False
+        if not ok:
+            bad = run_pair(a, b, A, B, c, comp, why)
+            if not bad:
+                raise AssertionError("C03: fast path and run_pair disagree on (%r, %r)" % (a, b))
+            for sig, exp, obs in bad:
+                part.violation(sig, {"k": "pair", "a": a, "b": b}, exp, obs)
+        n_ordered += 1 if j == i else 2
+        k = (c, comp, why)
+        classes[k] = classes.get(k, 0) + 1
         if j != i:
-            part.outcomes["%s/%s/%s" % (WORD[-c], comp, why)] += 1
+            k = (-c, comp, why)
+            classes[k] = classes.get(k, 0) + 1
             if c == 0 or "-vs-" in why:
                 part.nontrivial += 1
-        for sig, exp, obs in bad:
-            part.violation(sig, {"k": "pair", "a": a, "b": b}, exp, obs)
         if j in (i, len(strings) - 1) and i % 97 == 0:
             part.sample({"k": "pair", "a": a, "b": b})
+    part.transitions += n_ordered
+    part.traces += n_ordered
+    part.evaluations += n_ordered
+    for (c, comp, why), n in classes.items():
+        part.outcomes["%s/%s/%s" % (WORD[c], comp, why)] += n
     return part
 
 
